@@ -201,7 +201,11 @@ class SMMap(Map[SMNoteList, SMHitList, SMHoldList, SMBpmList], SMMapMeta):
 
         # Split measures by \n and filters out blank + comment entries
         note_data: List[List[str]] = [
-            [snap for snap in measure.split("\n") if "//" not in snap and snap]
+            [
+                snap
+                for snap in map(str.strip, measure.split("\n"))
+                if "//" not in snap and snap
+            ]
             for measure in note_data.split(",")
         ]
 
